@@ -119,6 +119,21 @@ def make_families(rng, n, fid0, gene_specs, small=False):
                 majors.append(a)
                 struct.append(gene.alleles[a].cn_config)
             pool.append([struct, sorted(majors), rng.choice([0, 0, 0.25, 0.5])])
+        # twins: the same number of copies but another structure (one copy replaced by its partial fusion allele, whose
+        # variants are a subset of the parent's: the variant universe stays the same).  Thresholds of the evidence
+        # filter depend on the per-region copy number, so such a twin must not influence its neighbour either.
+        if same_universe and rng.random() < 0.7:
+            for struct, majors, sc in list(pool):
+                if len(pool) > want:
+                    break
+                cands = [(a, f) for a in set(majors) for f in other if f.endswith(f"#{a}")]
+                if not cands:
+                    continue
+                a, f = rng.choice(sorted(cands))
+                tm = list(majors)
+                tm.remove(a)
+                tm.append(f)
+                pool.append([["1"] * (len(struct) - 1) + [gene.alleles[f].cn_config], sorted(tm), rng.choice([0, 0, 0.25])])
         if len(pool) < 2 or len({tuple(sorted(p[0])) for p in pool}) < 2:
             continue
         # evidence: planted from one candidate, then the fractions of its variants pushed into the band between thresholds
@@ -134,6 +149,46 @@ def make_families(rng, n, fid0, gene_specs, small=False):
                     ops["_"] = max(0, tot - k)
         fams.append({"fid": fid0 + len(fams), "gene": gname, "genome": genome, "table": {str(p): v for p, v in table.items()}, "params": {},
                      "pool": pool, "same_universe": same_universe})
+    return fams
+
+
+def make_twin_families(rng, n, fid0, gene_specs):
+    """Witness families for the structure-specific evidence filter: candidate A = two default copies of an allele, candidate
+    B = the same number of copies with one of them replaced by its partial fusion allele (same variant universe); every
+    variant read fraction sits between the thresholds 0.5/(cn+0.5) of two copies (0.2) and of one copy (0.33)."""
+    aldyenv.setup()
+    from .. import evidence, genes
+
+    fams, tries = [], 0
+    while len(fams) < n and tries < n * 30:
+        tries += 1
+        gname, genome = rng.choice(gene_specs)
+        gene = genes.load(gname, genome)
+        dele = gene.deletion_allele()
+        pairs = sorted((f.split("#", 1)[1], f) for f, al in gene.alleles.items()
+                       if "#" in f and al.cn_config not in ("1", dele) and f.split("#", 1)[1] in gene.alleles
+                       and gene.alleles[f.split("#", 1)[1]].cn_config == "1")
+        pairs = [(a, f) for a, f in pairs if any(mi.neutral_muts for mi in gene.alleles[a].minors.values()) or gene.alleles[a].func_muts]
+        if not pairs:
+            continue
+        a, f = rng.choice(pairs)
+        extra = rng.choice([0, 0, 1])
+        A = [["1"] * (2 + extra), [a] * (2 + extra), 0]
+        B = [["1"] * (1 + extra) + [gene.alleles[f].cn_config], sorted([a] * (1 + extra) + [f]), rng.choice([0, 0, 0.25])]
+        minors = sorted(gene.alleles[a].minors)
+        withvars = [m for m in minors if gene.alleles[a].minors[m].neutral_muts] or minors
+        bag = [(a, minors[0])] * (1 + extra) + [(a, rng.choice(withvars))]
+        table = evidence.plant(gene, bag, depth=20)
+        for p_, ops in table.items():
+            tot = sum(v for o, v in ops.items() if not o.startswith("ins"))
+            for o in list(ops):
+                if o != "_" and not o.startswith("ins"):
+                    k = max(1, int(round(tot * rng.choice([0.24, 0.27, 0.3]))))
+                    ops[o] = k
+                    ops["_"] = max(0, tot - k)
+        pool = [A, B] if rng.random() < 0.5 else [B, A]
+        fams.append({"fid": fid0 + len(fams), "gene": gname, "genome": genome, "table": {str(p_): v for p_, v in table.items()}, "params": {},
+                     "pool": pool, "same_universe": True, "twin": True})
     return fams
 
 
@@ -319,6 +374,7 @@ def run(ctx):
     gene_specs = [("toy", "hg19"), ("toy", "hg38"), ("cyp2c19", "hg19"), ("cyp2d6", "hg19")] if quick else [
         ("toy", "hg19"), ("toy", "hg38"), ("cyp2c19", "hg19"), ("cyp2d6", "hg19"), ("cyp2c9", "hg38"), ("cyp2a6", "hg19"), ("cyp2b6", "hg19")]
     fams = make_families(rng, 10 if quick else 60, 1000000, gene_specs, small=quick)
+    fams += make_twin_families(rng, 6 if quick else 40, 1000000 + len(fams), gene_specs)
 
     # ------------------------------------------------------------------ execute
     order = sorted(range(len(tasks)), key=lambda i: -(3 * sum(1 for o in tasks[i][1] if o["k"] in ("Genotype", "GenotypeMulti", "FreshProcess"))
